@@ -27,7 +27,7 @@ CONF = {
                      "distinct = SHA-1 of co_code; non-trivial = has >= 1 jump"),
     "C05": dict(must=["t_opcode_zoo", "t_opcode_zoo2", "t_line_gaps", "t_backward_lines", "t_long_loop", "t_long_columns", "t_doc"],
                 versions=ALLV, sections=["dis", "lines"], focus=["line_gaps", "backward_lines", "multiline_expr", "long_columns"],
-                quick=(25, 30), thorough=(900, 300), max_code_quick=3000, max_code_thorough=10000, min_eval=200,
+                quick=(25, 30), thorough=(400, 200), max_code_quick=3000, max_code_thorough=8000, min_eval=200,
                 rule="one evaluation = one code object: list(opc.findlinestarts(co)) vs V's dis.findlinestarts, starts_line of the "
                      "dup_lines=False stream exact and of the dup_lines=True stream a consistent superset, plus offset2line queries "
                      "against a linear scan; distinct = SHA-1 of (line starts, firstlineno); non-trivial = >= 2 line starts"),
